@@ -225,6 +225,15 @@ impl IterableKind {
                     IterableKind::Iterables(v) if i < v.len() => {
                         current = &v[i];
                     }
+                    // rows of different element kinds ([[1, 2], [0.5, 3]], or an
+                    // empty row) are kept as a mixed array of arrays
+                    IterableKind::Anys(v)
+                        if i < v.len() && matches!(v[i], Primitive::Iterable(_)) =>
+                    {
+                        if let Primitive::Iterable(inner) = &v[i] {
+                            current = inner;
+                        }
+                    }
                     IterableKind::Iterables(_)
                     | IterableKind::Numbers(_)
                     | IterableKind::Integers(_)
